@@ -232,8 +232,10 @@ Theorem blsg1_dec_u_valid c bs P :
 Proof.
   unfold blsg1_dec_u. destruct (negb (Nat.eqb (length bs) (2 * wc_len c))); [discriminate|].
   destruct bs as [|b0 r]; [discriminate|].
+  destruct (flagC b0 =? 1); [discriminate|]. destruct (flagS b0 =? 1); [discriminate|].
   destruct (flagI b0 =? 1).
-  - intros [= <-]. split; [reflexivity|apply w_mul_inf].
+  - destruct ((b0 mod 32 =? 0) && all_zero r); [|discriminate].
+    intros [= <-]. split; [reflexivity|apply w_mul_inf].
   - cbv zeta. match goal with |- match ?e with _ => _ end = _ -> _ => destruct e as [Q|] eqn:E end; [|discriminate].
     destruct (w_torsion_free c Q) eqn:T; [|discriminate].
     intros [= <-]. apply w_set_affine_on_curve in E. split; [tauto|now apply w_torsion_free_spec].
@@ -422,6 +424,38 @@ Proof.
     destruct (negb (flagC b0 =? 1)); [reflexivity|]. rewrite HI. cbn [Z.eqb Pos.eqb].
     destruct (flagS b0 =? 1); [reflexivity|].
     destruct H as [H|H]; [apply Z.eqb_neq in H; rewrite H|rewrite H, andb_false_r]; reflexivity.
+Qed.
+
+(* uncompressed BLS: no compression flag, no sort flag; infinity admits no payload *)
+Theorem blsg1_wrong_flags_u c b0 r :
+  (flagC b0 = 1 -> blsg1_dec_u c (b0 :: r) = None) /\
+  (flagS b0 = 1 -> blsg1_dec_u c (b0 :: r) = None) /\
+  (flagI b0 = 1 -> (b0 mod 32 <> 0 \/ all_zero r = false) -> blsg1_dec_u c (b0 :: r) = None).
+Proof.
+  repeat split.
+  - intros H. unfold blsg1_dec_u. destruct (negb (Nat.eqb _ _)); [reflexivity|]. rewrite H. reflexivity.
+  - intros H. unfold blsg1_dec_u. destruct (negb (Nat.eqb _ _)); [reflexivity|].
+    destruct (flagC b0 =? 1); [reflexivity|]. rewrite H. reflexivity.
+  - intros HI H. unfold blsg1_dec_u. destruct (negb (Nat.eqb _ _)); [reflexivity|].
+    destruct (flagC b0 =? 1); [reflexivity|]. destruct (flagS b0 =? 1); [reflexivity|].
+    rewrite HI. cbn [Z.eqb Pos.eqb].
+    destruct H as [H|H]; [apply Z.eqb_neq in H; rewrite H|rewrite H, andb_false_r]; reflexivity.
+Qed.
+
+(* FromAffineX (with the subgroup test on the root before the sign is chosen): the result is on
+   the curve; that negation preserves membership is part of C14's group laws, not shown here *)
+Theorem blsg1_from_affine_x_on_curve c x odd P :
+  blsg1_from_affine_x c x odd = Some P -> w_on_curve (wc c) P = true.
+Proof.
+  unfold blsg1_from_affine_x. destruct (wc_sqrt c (wc_rhs c x)) as [y|] eqn:E; [|discriminate].
+  destruct (w_torsion_free c (Some (x, y))) eqn:T; [|discriminate].
+  intros [= <-].
+  unfold wc_sqrt in E. apply ts_sqrt_sound in E. unfold wc_rhs in E. rewrite w_rhs_mod in E.
+  match goal with |- w_on_curve _ (Some (x, ?y')) = true =>
+    assert (H : mulm (wc_p c) y' y' = mulm (wc_p c) y y)
+      by (destruct (_ =? _); [reflexivity|apply neg_sq]) end.
+  unfold w_on_curve, on_curve. cbn [Zp feqb fmul fadd]. apply Z.eqb_eq.
+  unfold wc_p in *. unfold mulm in H at 1. rewrite H, E. unfold_m. zmod.
 Qed.
 
 Theorem ed_wrong_length c bs :
@@ -1408,7 +1442,9 @@ Section BlsRoundTrip.
       set (t := x / N) in *.
       rewrite (Z.mod_small t 256) by lia.
       assert (FI : flagI t = 0) by (unfold flagI; rewrite Z.div_small by lia; reflexivity).
-      rewrite FI. cbn [Z.eqb]. cbv zeta.
+      assert (FC : flagC t = 0) by (unfold flagC; rewrite Z.div_small by lia; reflexivity).
+      assert (FS : flagS t = 0) by (unfold flagS; rewrite Z.div_small by lia; reflexivity).
+      rewrite FI, FC, FS. cbn [Z.eqb]. cbv zeta.
       rewrite (Z.mod_small t 32) by lia.
       replace (wc_len c - 1)%nat with k by lia.
       rewrite firstn_app_len, skipn_app_len by apply be_enc_length.
@@ -1419,7 +1455,9 @@ Section BlsRoundTrip.
       unfold w_set_affine. fold p. rewrite (on_curve_rhs c x y Hc). fold p. rewrite Z.eqb_refl.
       apply w_torsion_free_spec in Hs. rewrite Hs. reflexivity.
     - cbn [length]. rewrite zeros_length. replace (S (2 * wc_len c - 1)) with (2 * wc_len c)%nat by lia.
-      rewrite Nat.eqb_refl. reflexivity.
+      rewrite Nat.eqb_refl. cbn [negb]. change (flagC 64) with 0. change (flagS 64) with 0.
+      change (flagI 64) with 1. cbn [Z.eqb Pos.eqb]. change (64 mod 32) with 0. cbn [Z.eqb andb].
+      rewrite all_zero_zeros. reflexivity.
   Qed.
 End BlsRoundTrip.
 
@@ -1436,6 +1474,83 @@ Proof.
   split; [apply blsg1_roundtrip_c|apply blsg1_roundtrip_u]; auto using blsg1_flag_room.
 Qed.
 
+
+(* ---- edwards25519 base field, wide reduction by hand (Fp.SetBytesWide) -------------------------- *)
+
+Lemma le_val_bound l : is_bytes l -> 0 <= le_val l < 256 ^ Z.of_nat (length l).
+Proof.
+  induction 1 as [|b l Hb Hl IH]; cbn [le_val length].
+  - change (256 ^ Z.of_nat 0) with 1. lia.
+  - rewrite pow256_S. lia.
+Qed.
+
+Lemma is_bytes_app a b : is_bytes a -> is_bytes b -> is_bytes (a ++ b).
+Proof. intros. apply Forall_app. auto. Qed.
+
+Lemma is_bytes_zeros k : is_bytes (zeros k).
+Proof. unfold zeros. induction k; constructor; [lia|assumption]. Qed.
+
+Lemma is_bytes_rev l : is_bytes l -> is_bytes (rev l).
+Proof. intros H. apply Forall_rev. exact H. Qed.
+
+Lemma is_bytes_firstn n l : is_bytes l -> is_bytes (firstn n l).
+Proof.
+  revert l; induction n as [|n IH]; intros [|x l] H; cbn [firstn]; try constructor;
+    inversion H; subst; auto. apply IH; assumption.
+Qed.
+
+Lemma is_bytes_skipn n l : is_bytes l -> is_bytes (skipn n l).
+Proof.
+  revert l; induction n as [|n IH]; intros [|x l] H; cbn [skipn]; try assumption.
+  inversion H; subst. apply IH; assumption.
+Qed.
+
+Theorem fld25519_from_wide_reduces p bs v :
+  p = 2 ^ 255 - 19 -> is_bytes bs ->
+  fld25519_from_wide p bs = Some v -> (length bs <= 64)%nat /\ v = be_val bs mod p.
+Proof.
+  intros Hp Hb. cbv beta delta [fld25519_from_wide].
+  destruct (Nat.leb (length bs) 64) eqn:E; [|discriminate]. apply Nat.leb_le in E.
+  cbv zeta. intros H. apply some_inj in H. subst v. split; [exact E|].
+  set (le := rev bs ++ zeros (64 - length bs)).
+  assert (Hl : length le = 64%nat) by (unfold le; rewrite app_length, rev_length, zeros_length; lia).
+  assert (Hle : is_bytes le) by (unfold le; apply is_bytes_app; [now apply is_bytes_rev|apply is_bytes_zeros]).
+  assert (Hv : be_val bs = le_val le) by (unfold be_val, le; now rewrite le_val_pad).
+  rewrite Hv, (firstn_skipn_val 32 le), firstn_length, Hl.
+  change (Nat.min 32 64) with 32%nat.
+  set (w0 := le_val (firstn 32 le)). set (w1 := le_val (skipn 32 le)).
+  assert (B0 : 0 <= w0 < 2 ^ 256).
+  { pose proof (le_val_bound (firstn 32 le) (is_bytes_firstn 32 le Hle)) as B.
+    rewrite firstn_length, Hl in B. exact B. }
+  assert (B1 : 0 <= w1 < 2 ^ 256).
+  { pose proof (le_val_bound (skipn 32 le) (is_bytes_skipn 32 le Hle)) as B.
+    rewrite skipn_length, Hl in B. exact B. }
+  assert (T : 2 ^ 256 = 2 * 2 ^ 255) by reflexivity.
+  pose proof (Z.div_mod w0 (2 ^ 255) ltac:(lia)) as D0.
+  pose proof (Z.div_mod w1 (2 ^ 255) ltac:(lia)) as D1.
+  pose proof (Z.mod_pos_bound w0 (2 ^ 255) ltac:(lia)) as M0.
+  pose proof (Z.mod_pos_bound w1 (2 ^ 255) ltac:(lia)) as M1.
+  set (q0 := w0 / 2 ^ 255) in *. set (r0 := w0 mod 2 ^ 255) in *.
+  set (q1 := w1 / 2 ^ 255) in *. set (r1 := w1 mod 2 ^ 255) in *.
+  assert (Q0 : q0 = 0 \/ q0 = 1) by nia.
+  assert (Q1 : q1 = 0 \/ q1 = 1) by nia.
+  assert (P255 : eqm p (2 ^ 255) 19).
+  { unfold eqm. replace (2 ^ 255) with (19 + 1 * p) by lia. apply Z_mod_plus_full. }
+  assert (E0 : eqm p (if q0 =? 1 then 19 else 0) (q0 * 2 ^ 255)).
+  { destruct Q0 as [-> | ->]; cbn [Z.eqb Pos.eqb]; [reflexivity|]. rewrite P255. reflexivity. }
+  assert (E1 : eqm p (if q1 =? 1 then 722 else 0) (q1 * 2 ^ 255 * 2 ^ 256)).
+  { destruct Q1 as [-> | ->]; cbn [Z.eqb Pos.eqb]; [reflexivity|].
+    rewrite T, P255. reflexivity. }
+  change (256 ^ Z.of_nat 32) with (2 ^ 256).
+  unfold_m.
+  match goal with |- ?L mod _ = ?R mod _ => change (eqm p L R) end.
+  pose proof (mod_eqm p) as Hq. rewrite_strat (repeat (outermost Hq)). clear Hq.
+  rewrite E0, E1.
+  assert (P256 : eqm p 38 (2 ^ 256)).
+  { rewrite T, P255. reflexivity. }
+  rewrite P256. rewrite D0, D1.
+  set (A := 2 ^ 255). set (B := 2 ^ 256). apply eqm_refl_eq. ring.
+Qed.
 
 (* ---- non-vacuity: a toy curve over F_11 meets every hypothesis ---------------------------------- *)
 
